@@ -116,6 +116,107 @@ func (m *Mutex) TryLock() bool {
 	return true
 }
 
+// RWMutex stands in for sync.RWMutex (a change to the code under test may turn a
+// Mutex into one): the simulator decides which waiter proceeds; like the runtime's, it
+// admits no new reader while a writer waits.
+type RWMutex struct {
+	real    sync.RWMutex
+	g       sync.Mutex
+	readers int
+	writer  bool
+	wwait   int
+}
+
+func (m *RWMutex) wait(r *simcore.Run, tag, what string, ok func() bool) {
+	for {
+		m.g.Lock()
+		if ok() {
+			return // with m.g held
+		}
+		m.g.Unlock()
+		res := r.Park(&simcore.Op{ID: what + ":" + tag, NoDelay: true, Ready: func() bool {
+			m.g.Lock()
+			defer m.g.Unlock()
+			return ok()
+		}})
+		if res.Killed {
+			runtime.Goexit()
+		}
+	}
+}
+
+func (m *RWMutex) Lock() {
+	r, tag := sim()
+	if r == nil {
+		m.real.Lock()
+		m.g.Lock()
+		m.writer = true
+		m.g.Unlock()
+		return
+	}
+	m.g.Lock()
+	m.wwait++
+	m.g.Unlock()
+	m.wait(r, tag, "lock", func() bool { return !m.writer && m.readers == 0 })
+	m.writer = true
+	m.wwait--
+	m.g.Unlock()
+	if OnAcquire != nil {
+		OnAcquire(tag)
+	}
+}
+
+func (m *RWMutex) Unlock() {
+	r, tag := sim()
+	if r != nil && OnRelease != nil {
+		OnRelease(tag)
+	}
+	m.g.Lock()
+	if !m.writer {
+		m.g.Unlock()
+		if a := simcore.Active.Load(); a != nil && a.Over() {
+			return
+		}
+		panic("simsync: unlock of unlocked rwmutex")
+	}
+	m.writer = false
+	m.g.Unlock()
+	if r == nil {
+		m.real.Unlock()
+	}
+}
+
+func (m *RWMutex) RLock() {
+	r, tag := sim()
+	if r == nil {
+		m.real.RLock()
+		m.g.Lock()
+		m.readers++
+		m.g.Unlock()
+		return
+	}
+	m.wait(r, tag, "rlock", func() bool { return !m.writer && m.wwait == 0 })
+	m.readers++
+	m.g.Unlock()
+}
+
+func (m *RWMutex) RUnlock() {
+	r, _ := sim()
+	m.g.Lock()
+	if m.readers == 0 {
+		m.g.Unlock()
+		if a := simcore.Active.Load(); a != nil && a.Over() {
+			return
+		}
+		panic("simsync: runlock of unlocked rwmutex")
+	}
+	m.readers--
+	m.g.Unlock()
+	if r == nil {
+		m.real.RUnlock()
+	}
+}
+
 // Yield is spliced in front of statements; it is a scheduling point when the
 // world enabled yields, the calling goroutine is tagged and this site belongs to
 // the subset enabled for the run.
